@@ -562,6 +562,20 @@ class C10Monitor(BookTracker):
         if pending:
             res.violation("boundary", "records-left-unprocessed-after-the-last-boundary",
                           {"first": taps.snap_log(pending[0][1]), "count": len(pending)})
+        # 3b. step records are delivered synchronously: processed before anything else reaches the logger
+        order = [(sq, "w", l) for sq, l, _ in self.recv] + [(sq, "p", l) for sq, l in self.proc]
+        order.sort(key=lambda x: x[0])
+        waiting = None
+        for sq, kind, l in order:
+            if waiting is not None:
+                if kind == "p" and l is waiting:
+                    waiting = None
+                    continue
+                res.violation("synchronous", "step-record-not-processed-exactly-once-inside-its-write-call",
+                              {"record": taps.snap_log(waiting), "next_event": kind + ":" + tname(l)})
+                break
+            if kind == "w" and tname(l) in STEP_KINDS:
+                waiting = l
         # 4. begin/end records and nesting
         self._nesting(case)
         # classes
